@@ -59,7 +59,7 @@ theorem real_within_one_ulp_small_long_end (c : List Nat) (o e : Nat) (sign zs :
   obtain ⟨t1, t2⟩ := decVal_trunc (d1 :: ys) rest hrest
   have hres := realResult_neg_trunc (decide (sign = [45])) (decVal (d1 :: ys)) 19 (19 + zs.length)
     (o + sign.length + 2 + zs.length + 19 + rest.length) rest.length (decVal (d1 :: ys ++ rest))
-    (Nat.le_trans (by decide) hge) hv64 hvhi (by omega) (by omega) t1 t2
+    (Nat.le_trans (by decide) hge) hv64 hvhi (by omega) (by omega) t1 (trunc_rel_of_abs _ _ _ (Nat.le_trans (by decide) hge) t2)
   rw [show 19 + zs.length + rest.length = zs.length + 19 + rest.length by omega] at hres
   exact hres
 
@@ -120,7 +120,7 @@ theorem real_within_one_ulp_frac_long_end (c : List Nat) (o e : Nat) (sign : Lis
   obtain ⟨t1, t2⟩ := decVal_trunc (d1 :: (xs ++ ys)) rest hrest
   have hres := realResult_neg_trunc (decide (sign = [45])) (decVal (d1 :: (xs ++ ys))) 18 ys.length
     (o + sign.length + 19 + rest.length) rest.length (decVal (d1 :: (xs ++ ys) ++ rest))
-    hge hv64 hvhi (by omega) (by omega) t1 t2
+    (Nat.le_trans (by decide) hge) hv64 hvhi (by omega) (by omega) t1 (trunc_rel_of_abs _ _ _ hge t2)
   simpa using hres
 
 /-- `[+-]? 0 . zs d₁ ys rest (e|E) [+-]? ks` with a negative net exponent (`10^(±ks − zeros − 19)`, always negative
@@ -192,7 +192,7 @@ theorem real_within_one_ulp_small_long_exp (c : List Nat) (o e : Nat) (sign zs :
     · split <;> simp <;> omega
   exact realResult_neg_trunc (decide (sign = [45])) (decVal (d1 :: ys)) 19 _
     _ rest.length (decVal (d1 :: ys ++ rest))
-    (Nat.le_trans (by decide) hge) hv64 hvhi (by omega) hX t1 t2
+    (Nat.le_trans (by decide) hge) hv64 hvhi (by omega) hX t1 (trunc_rel_of_abs _ _ _ (Nat.le_trans (by decide) hge) t2)
 
 /-- `[+-]? d₁ xs . ys rest (e|E) [+-]? ks` with a negative net exponent, exponent value below `10^8` -/
 theorem real_within_one_ulp_frac_long_exp (c : List Nat) (o e : Nat) (sign : List Nat) (d1 : Nat) (xs ys rest : List Nat)
@@ -266,7 +266,7 @@ theorem real_within_one_ulp_frac_long_exp (c : List Nat) (o e : Nat) (sign : Lis
     · split <;> simp <;> omega
   have hres := realResult_neg_trunc (decide (sign = [45])) (decVal (d1 :: (xs ++ ys))) 18 _
     (o + sign.length + 19 + rest.length + 1 + es.length + ks.length) rest.length (decVal (d1 :: (xs ++ ys) ++ rest))
-    hge hv64 hvhi (by omega) hX t1 t2
+    (Nat.le_trans (by decide) hge) hv64 hvhi (by omega) hX t1 (trunc_rel_of_abs _ _ _ hge t2)
   simpa using hres
 
 /-! ### plain integers of 20 or more digits -/
